@@ -286,6 +286,7 @@ class Statement(object):
                 if self.instruction.is_short_branch and length > 0x7F:
                     raise TranslationError("branch target out of range", self)
                 self.code_pkg.additional = NumericValue(length, size_hint=size_hint)
+            self.correct_branch_across_origin(statements[branch_index], length if branch_index > this_index else 1 - length)
             return
 
         if self.operand.value.is_address_expression():
@@ -319,6 +320,27 @@ class Statement(object):
             self.code_pkg.additional = NumericValue(jump_amount, size_hint=self.pcr_size_hint)
 
         self.fit_operand_to_reserved_size()
+
+    def correct_branch_across_origin(self, target, distance_by_size):
+        """
+        The distance to a branch target is counted in bytes of the statements in between.
+        When an ORG lies between the two (the label sits on a statement in front of the
+        ORG), the target is somewhere else: the distance is then taken from the addresses.
+
+        :param target: the statement that is the target of the branch
+        :param distance_by_size: the signed distance counted from the statement sizes
+        """
+        if target.code_pkg.address.is_none() or self.code_pkg.address.is_none():
+            return
+        distance = target.code_pkg.address.int - (self.code_pkg.address.int + self.code_pkg.size)
+        if distance == distance_by_size:
+            return
+        if self.instruction.is_short_branch:
+            if not -0x80 <= distance <= 0x7F:
+                raise TranslationError("branch target out of range", self)
+            self.code_pkg.additional = NumericValue(distance & 0xFF, size_hint=2)
+        else:
+            self.code_pkg.additional = NumericValue(distance & 0xFFFF, size_hint=4)
 
     def fit_operand_to_reserved_size(self):
         """
